@@ -130,7 +130,7 @@ fn full_view(g: &DfirGraph) -> Vec<String> {
                 oi.op_constraints.name,
                 oi.input_ports.iter().map(port_str).collect::<Vec<_>>(),
                 oi.output_ports.iter().map(port_str).collect::<Vec<_>>(),
-                strip_ref_markers(&oi.arguments_raw.to_string().replace(' ', "")),
+                oi.arguments_raw.to_string().replace(' ', ""),
                 oi.generics.generic_args.as_ref().map(|g| quote!(#g).to_string()).unwrap_or_default(),
             )
         });
@@ -181,31 +181,6 @@ fn full_view(g: &DfirGraph) -> Vec<String> {
     out.push(format!("mermaid {:?}", g.to_mermaid(&Default::default())));
     out.push(format!("dot {:?}", g.to_dot(&Default::default())));
     out.push(format!("surface {:?}", g.surface_syntax_string()));
-    out
-}
-
-/// remove the `#`, `#mut`, `#{N}`, `#{N}mut` reference markers from (space-free) argument text
-pub fn strip_ref_markers(s: &str) -> String {
-    let b = s.as_bytes();
-    let mut out = String::new();
-    let mut i = 0;
-    while i < b.len() {
-        if b[i] == b'#' {
-            i += 1;
-            if i < b.len() && b[i] == b'{' {
-                while i < b.len() && b[i] != b'}' {
-                    i += 1;
-                }
-                i += 1;
-            }
-            if s[i.min(s.len())..].starts_with("mut") {
-                i += 3;
-            }
-        } else {
-            out.push(b[i] as char);
-            i += 1;
-        }
-    }
     out
 }
 
@@ -378,9 +353,9 @@ fn roundtrip_checks(rec: &mut Recorder, p: &DfirGraph, mut q: DfirGraph, json: &
             let (a, b) = (full_view(&p), full_view(&q));
             let first = a.iter().zip(b.iter()).find(|(x, y)| x != y);
             rec.check(a == b, "c20-json-roundtrip-accessors", &format!("{:?}", first));
-            // the `#var` reference markers inside operator arguments (finding F20: serde prints the parsed args)
+            // the `#var` reference markers inside operator arguments (finding F20, fixed: serde used to print the parsed args)
             let has_refs = ref_marker_counts(&p).iter().any(|x| x.1 > 0);
-            rec.check(ref_marker_counts(&p) == ref_marker_counts(&q), "c20-json-roundtrip-args@ref-markers-lost", "operator arguments lose their `#var` markers");
+            rec.check(ref_marker_counts(&p) == ref_marker_counts(&q), "c20-json-roundtrip-args", "operator arguments lose their `#var` markers");
             if has_refs {
                 rec.count("json-roundtrip-with-refs");
             }
@@ -394,8 +369,7 @@ fn roundtrip_checks(rec: &mut Recorder, p: &DfirGraph, mut q: DfirGraph, json: &
                     let (a, b) = (strip_locs(&c1.replace(' ', "")), strip_locs(&c2.replace(' ', "")));
                     let pos = a.bytes().zip(b.bytes()).position(|(x, y)| x != y).unwrap_or(a.len().min(b.len()));
                     let lo = pos.saturating_sub(60);
-                    let sig = if has_refs { "c20-json-roundtrip-code@ref-markers-lost" } else { "c20-json-roundtrip-code" };
-                    rec.check(a == b, sig, &format!("at {pos}: `{}` vs `{}`", &a[lo..(pos + 60).min(a.len())], &b[lo..(pos + 60).min(b.len())]));
+                    rec.check(a == b, "c20-json-roundtrip-code", &format!("at {pos}: `{}` vs `{}`", &a[lo..(pos + 60).min(a.len())], &b[lo..(pos + 60).min(b.len())]));
                 }
                 (Err(_), Err(_)) => rec.count("code-error-both"),
                 (x, y) => rec.check(false, "c20-json-roundtrip-code-result", &format!("{:?} vs {:?}", x.is_ok(), y.is_ok())),
